@@ -85,6 +85,7 @@ pub fn run(ev: &Evaluator, e: &syn::Expr, input: &str, at: usize, depth: usize) 
                 "alpha1" => class(input, at, 1, &|c| Ok(c.is_ascii_alphabetic())),
                 "digit1" => class(input, at, 1, &|c| Ok(c.is_ascii_digit())),
                 "eof" => Ok(if at == input.len() { Some((at, Out::Unit)) } else { None }),
+                "rest" => Ok(Some((input.len(), Out::Str(input[at..].to_string())))),
                 o => Err(format!("unmodelled parser `{}`", o)),
             }
         }
@@ -102,10 +103,20 @@ pub fn run(ev: &Evaluator, e: &syn::Expr, input: &str, at: usize, depth: usize) 
                 ("pair", 2) | ("tuple", _) => seq(args.clone()),
                 ("separated_pair", 3) => match seq(args.clone())? { Some((p, Out::Tuple(o))) => Ok(Some((p, Out::Tuple(vec![o[0].clone(), o[2].clone()])))), _ => Ok(None) },
                 ("opt", 1) => Ok(Some(run(ev, args[0], input, at, depth + 1)?.unwrap_or((at, Out::None)))),
+                // wrappers that change the output type only
+                ("into_inner", 1) | ("into", 1) | ("cut", 1) | ("complete", 1) => run(ev, args[0], input, at, depth + 1),
+                // nom's take_until, and the crate's take_until_or (lexer::util): up to the first occurrence of either tag;
+                // an error when neither occurs
+                ("take_until", 1) => { let t = lit_str(ev, args[0])?; Ok(input[at..].find(&t).map(|i| (at + i, Out::Str(input[at..at + i].to_string())))) }
+                ("take_until_or", 2) => {
+                    let (t1, t2) = (lit_str(ev, args[0])?, lit_str(ev, args[1])?);
+                    let i = match (input[at..].find(&t1), input[at..].find(&t2)) { (None, None) => None, (Some(i), None) | (None, Some(i)) => Some(i), (Some(i), Some(j)) => Some(i.min(j)) };
+                    Ok(i.map(|i| (at + i, Out::Str(input[at..at + i].to_string()))))
+                }
                 ("recognize", 1) => Ok(run(ev, args[0], input, at, depth + 1)?.map(|(p, _)| (p, Out::Str(input[at..p].to_string())))),
                 ("all_consuming", 1) => Ok(run(ev, args[0], input, at, depth + 1)?.filter(|(p, _)| *p == input.len())),
                 ("value", 2) => Ok(run(ev, args[1], input, at, depth + 1)?.map(|(p, _)| (p, Out::Unit))),
-                ("many0", 1) | ("many1", 1) => {
+                ("many0", 1) | ("many1", 1) | ("many0_count", 1) | ("many1_count", 1) => {
                     let mut pos = at;
                     let mut outs = vec![];
                     loop {
@@ -115,7 +126,7 @@ pub fn run(ev: &Evaluator, e: &syn::Expr, input: &str, at: usize, depth: usize) 
                             _ => break,
                         }
                     }
-                    if name == "many1" && outs.is_empty() { Ok(None) } else { Ok(Some((pos, Out::List(outs)))) }
+                    if name.starts_with("many1") && outs.is_empty() { Ok(None) } else { Ok(Some((pos, Out::List(outs)))) }
                 }
                 ("separated_list0", 2) | ("separated_list1", 2) => {
                     let mut outs = vec![];
